@@ -82,7 +82,9 @@ Qed.
 
 (* ... and so is every run that does not end in a bare "&" and in which every comment opener "<!--" is followed by a "-->"
    (in particular every run without a comment opener): references, lone "<" and "&", closed comments.  The two exclusions are
-   exactly the runs of which the tokenizer keeps a piece buffered. *)
+   the runs of which chunk keeps a piece back.  (chunk follows the tokenizer on runs whose references are ";"-terminated - the
+   property's text alphabet; an unterminated "&name" / "&#n" or a bare "&" directly before a tag is read differently by the
+   real tokenizer, which is why the per-case LEX-OK comparison, not this theorem, ties chunk to it.) *)
 Theorem C01_closed_runs_complete : forall p, ends_amp p = false -> closed_comments p -> complete p.
 Proof. exact closed_runs_complete. Qed.
 Theorem C01_runs_without_opener_complete : forall p, ends_amp p = false -> no_opener p -> complete p.
